@@ -47,7 +47,7 @@ def classify(net, r: R):
         r.cls('source-names-interleave')
 
 
-def check_solution(case, r: R):
+def _check_solution_one(case, r: R):
     net = case['net']
     ref = rs.solve(net)
     if ref is None:
@@ -109,6 +109,22 @@ def check_solution(case, r: R):
             sc = abs(complex(a)) * S_phi + abs(complex(bb)) * S_I[b['id']]
             if not tol.close(res, 0, sc):
                 r.fail('element-law', f'{b["id"]!r} ({b["kind"]}): residual {res}')
+    # the same branches solved again, in this process, with every other node as reference: potentials shift by one constant
+    from CircuitCalculator.Network.transformers import switch_ground_node
+    for r2 in rs.nodes_of(net):
+        if r2 == net['ref']:
+            continue
+        with r.lib('solve[other reference]'):
+            sol2 = solver()(switch_ground_node(N, r2))
+            for n in rs.nodes_of(net):
+                want = complex(ref['phi'][n]) - complex(ref['phi'][r2])
+                if not tol.close(sol2.get_potential(n), want, 2 * S_phi):
+                    r.fail('potential-after-re-referencing', f'reference {r2!r}, node {n!r}: lib {sol2.get_potential(n)} exact {want}')
+            for b in net['branches']:
+                if not tol.close(sol2.get_current(b['id']), exp[b['id']]['I'], S_I[b['id']]):
+                    r.fail('current-after-re-referencing', f'reference {r2!r}, {b["id"]!r}: lib {sol2.get_current(b["id"])} exact {complex(exp[b["id"]]["I"])}')
+        if len(rs.nodes_of(net)) > 4:
+            break        # one alternative reference is enough for the large random networks
     # open-circuit voltage between node pairs
     from CircuitCalculator.Network.NodalAnalysis.bias_point_analysis import open_circuit_voltage
     nodes = rs.nodes_of(net)
@@ -163,6 +179,22 @@ def small_cases(tier):
                     branches.append({'id': IDS[pos], 'n1': NODES[a], 'n2': NODES[b], 'kind': k, 'p': VALS[k][pos]})
                 for ref in range(n):
                     yield {'net': {'ref': NODES[ref], 'branches': branches}, 'pairs': [[0, 1], [1, 0]]}
+
+
+def check_solution(case, r: R):
+    """the case itself, then - in the same process - its value-perturbed twin (same names, topology, listing order):
+    a result that is cached or keyed by structure instead of by value shows up on the second evaluation"""
+    _check_solution_one(case, r)
+    if r.failures:
+        return
+    first_rejected, r.rejected = r.rejected, None
+    twin = dict(case)
+    twin['net'] = gen.twin_network(case['net'])
+    sub = R()
+    _check_solution_one(twin, sub)
+    for s_, d_ in sub.failures:
+        r.fail('twin:' + s_, d_)
+    r.rejected = first_rejected
 
 
 TESTS = [
